@@ -939,7 +939,7 @@ pub fn step(cfg: &Cfg, sut: &mut Sut, m: &mut Model, pre: &Snapshot, op: Op, has
     if !u {
         match op {
             Op::Sync => m.maintained = true,
-            Op::Con(_) | Op::Iter => {}
+            Op::Con(_) | Op::Iter | Op::CloneDrop => {}
             _ => m.maintained = cfg.autosync && !(cfg.lazyadv && matches!(op, Op::Adv(_))),
         }
     }
@@ -1175,7 +1175,7 @@ pub fn step(cfg: &Cfg, sut: &mut Sut, m: &mut Model, pre: &Snapshot, op: Op, has
         Op::GetCP(k) => {
             upper(m, k, None, "get", &mut viol);
         }
-        Op::Adv(_) | Op::Sync => {}
+        Op::Adv(_) | Op::Sync | Op::CloneDrop => {}
         Op::IterInvAll => unreachable!(),
     }
     }
@@ -1232,7 +1232,7 @@ pub fn step(cfg: &Cfg, sut: &mut Sut, m: &mut Model, pre: &Snapshot, op: Op, has
         } else if !u {
             m.obligation = None;
         }
-    } else if !u && !matches!(op, Op::Get(_) | Op::Con(_) | Op::Iter | Op::Sync) {
+    } else if !u && !matches!(op, Op::Get(_) | Op::Con(_) | Op::Iter | Op::Sync | Op::CloneDrop) {
         m.obligation = None;
     }
     if !u && post.write_ops.is_empty() {
